@@ -1,4 +1,5 @@
 // /verif harness: calls the real rivia code in-process and prints one canonical line per request.
+mod corefn;
 mod pathfn;
 mod util;
 
@@ -20,7 +21,14 @@ fn main() {
             for line in stdin.lock().lines() {
                 let line = line.unwrap();
                 let toks: Vec<&str> = line.trim().split(' ').collect();
-                let res = if toks.is_empty() { None } else { pathfn::call(toks[0], &toks[1..], &mut touched) };
+                let res = if toks.is_empty() {
+                    None
+                } else {
+                    match pathfn::call(toks[0], &toks[1..], &mut touched) {
+                        Some(x) => Some(x),
+                        None => corefn::call(toks[0], &toks[1..], &mut touched),
+                    }
+                };
                 writeln!(out, "{}", res.unwrap_or_else(|| "bad-op".to_string())).unwrap();
             }
         },
